@@ -155,6 +155,7 @@ package limit
 //@   owns[C17]
 
 //@ func (*VegasLimit).updateEstimatedLimit
+//@   relational[C08] rtt_monotone varies rtt: r1(rtt) < r2(rtt) ==> r2(l.estimatedLimit) <= r1(l.estimatedLimit)
 //@   requires locked: held(l.mu)
 //@   requires sample: 0 < rtt && rtt <= 4611686018427387904 && 0 <= inFlight && inFlight < 1<<31
 //@   requires based: 0.0 < vegasBase(l) && vegasBase(l) <= float64(rtt)
@@ -175,6 +176,7 @@ package limit
 //@   maintains[C04,C06,C07,C15] l
 //@   ensures[C06] drop_never_raises: didDrop ==> l.estimatedLimit <= old(l.estimatedLimit)
 //@   ensures[C07] gate: !didDrop && float64(inFlight) * 2.0 < old(l.estimatedLimit) ==> l.estimatedLimit == old(l.estimatedLimit)
+//@   ensures[C08] update_delegated: old(l.probeCount) + 1 < int(l.probeJitter * float64(l.probeMultipler) * old(l.estimatedLimit)) && old(vegasBase(l)) != 0.0 && float64(rtt) >= old(vegasBase(l)) ==> ncalls("(*limit.VegasLimit).updateEstimatedLimit") == 1 && callrecv("(*limit.VegasLimit).updateEstimatedLimit", 0) == l && callarg("(*limit.VegasLimit).updateEstimatedLimit", 0, 1) == rtt && callarg("(*limit.VegasLimit).updateEstimatedLimit", 0, 2) == inFlight && callarg("(*limit.VegasLimit).updateEstimatedLimit", 0, 3) == didDrop
 //@   ensures[C15] baseline_bound: vegasBase(l) == 0.0 || vegasBase(l) <= float64(rtt)
 //@   ensures[C15] baseline_observed: vegasBase(l) == float64(rtt) || vegasBase(l) == old(vegasBase(l))
 //@   ensures[C15] probe_resets: ref(l.rttNoLoad) != ref(old(l.rttNoLoad)) ==> l.probeCount == 0 && vegasBase(l) == float64(rtt) && fresh(ref(l.rttNoLoad))
@@ -261,6 +263,7 @@ package limit
 //@ define gradProbed(l *limit.GradientLimit, counterBefore int) bool = l.probeInterval != -1 && counterBefore - 1 <= 0
 
 //@ func (*GradientLimit).OnSample
+//@   relational[C08] rtt_monotone varies rtt: r1(rtt) < r2(rtt) && old(gradMin(l).value) != 0.0 && float64(r1(rtt)) >= old(gradMin(l).value) && !gradProbed(l, old(l.resetRTTCounter)) ==> r2(l.estimatedLimit) <= r1(l.estimatedLimit)
 //@   requires sample: 0 <= rtt && rtt <= 4611686018427387904 && 0 <= inFlight && inFlight < 1<<31
 //@   maintains[C04,C06,C07,C15] l
 //@   ensures[C06] drop_never_raises: didDrop ==> l.estimatedLimit <= old(l.estimatedLimit)
@@ -331,6 +334,8 @@ package limit
 //@   owns[C17]
 
 //@ func (*Gradient2Limit).OnSample
+//@   relational[C08] rtt_monotone_warmup varies rtt: r1(rtt) < r2(rtt) && old(g2Long(l).count) < g2Long(l).warmupWindow ==> r2(l.estimatedLimit) <= r1(l.estimatedLimit)
+//@   relational[C08] rtt_monotone_steady varies rtt: r1(rtt) < r2(rtt) && old(g2Long(l).count) >= g2Long(l).warmupWindow ==> r2(l.estimatedLimit) <= r1(l.estimatedLimit)
 //@   requires sample: 0 <= rtt && rtt <= 4611686018427387904 && 0 <= inFlight && inFlight < 1<<31
 //@   maintains[C04,C07] l
 //@   ensures[C07] gate: float64(inFlight) < old(l.estimatedLimit) / 2.0 ==> l.estimatedLimit == old(l.estimatedLimit)
@@ -344,7 +349,7 @@ package limit
 //@   owns[C17]
 
 // long-term average right after adding sample x (before the optional 0.9 decay), from the pre-state
-//@ define g2LongAfterAdd(l *limit.Gradient2Limit, x float64) float64 = ite(old(g2Long(l).count) < g2Long(l).warmupWindow, (old(g2Long(l).sum) + x) / float64(old(g2Long(l).count) + 1), old(g2Long(l).value) * (1.0 - 2.0 / float64(g2Long(l).window + 1)) + x * (2.0 / float64(g2Long(l).window + 1)))
+//@ define g2LongAfterAdd(l *limit.Gradient2Limit, x float64) float64 = ite(old(g2Long(l).count) < g2Long(l).warmupWindow, (old(g2Long(l).sum) + x) / float64(old(g2Long(l).count) + 1), old(g2Long(l).value) * (1.0 - emaFactor(g2Long(l).window)) + x * emaFactor(g2Long(l).window))
 //@ define g2Gradient(short float64, long float64) float64 = ite(short > 0.0, max(0.5, min(1.0, long / short)), 1.0)
 
 // ---------------------------------------------------------------------------------------------
